@@ -395,24 +395,51 @@ func manyEntries(n, pat int) []ment {
 	return out
 }
 
+// callerBufs: the byte strings of every Add* call on one verifier are handed over in the SAME three caller-owned buffers
+// (the way a caller that decodes successive entries into scratch memory does it), which are overwritten by the next
+// call's strings.  The verifier may copy what it needs; it must not keep the slices (a "same key as the last entry?"
+// memo that stores the caller's slice compares the buffer with itself).
+type callerBufs struct{ pk, msg, sig []byte }
+
+var bufsOf sync.Map // *ed25519.BatchVerifier -> *callerBufs
+
+func inBufs(v *ed25519.BatchVerifier, c *sigCase) (pk, msg, sig []byte) {
+	x, _ := bufsOf.LoadOrStore(v, &callerBufs{make([]byte, 0, 96), make([]byte, 0, 512), make([]byte, 0, 160)})
+	b := x.(*callerBufs)
+	put := func(dst *[]byte, src []byte) []byte {
+		if src == nil {
+			return nil
+		}
+		if len(src) > cap(*dst) {
+			*dst = make([]byte, 0, 2*len(src))
+		}
+		for i := range (*dst)[:cap(*dst)] { // whatever the previous call's string was is gone
+			(*dst)[:cap(*dst)][i] = 0xee
+		}
+		*dst = append((*dst)[:0], src...)
+		return *dst
+	}
+	return put(&b.pk, c.pk), put(&b.msg, c.msg), put(&b.sig, c.sig)
+}
+
 // step applies one operation to the real object and the model; returns an observation for verify ops.
 func step(v *ed25519.BatchVerifier, m *[]ment, o bop, seed int64) *obs {
 	switch o.kind {
 	case 0:
-		c := cases[o.ci]
-		v.Add(c.pk, c.msg, c.sig)
+		pk, msg, sig := inBufs(v, &cases[o.ci])
+		v.Add(pk, msg, sig)
 		*m = append(*m, ment{o.ci, optIdx["default"]})
 	case 1:
-		c := cases[o.ci]
-		v.AddWithOptions(c.pk, c.msg, c.sig, optSets[o.oi].o)
+		pk, msg, sig := inBufs(v, &cases[o.ci])
+		v.AddWithOptions(pk, msg, sig, optSets[o.oi].o)
 		*m = append(*m, ment{o.ci, o.oi})
 	case 2:
-		c := cases[o.ci]
-		v.AddExpanded(expanded(o.ci), c.msg, c.sig)
+		_, msg, sig := inBufs(v, &cases[o.ci])
+		v.AddExpanded(expanded(o.ci), msg, sig)
 		*m = append(*m, ment{o.ci, optIdx["default"]})
 	case 3:
-		c := cases[o.ci]
-		v.AddExpandedWithOptions(expanded(o.ci), c.msg, c.sig, optSets[o.oi].o)
+		_, msg, sig := inBufs(v, &cases[o.ci])
+		v.AddExpandedWithOptions(expanded(o.ci), msg, sig, optSets[o.oi].o)
 		*m = append(*m, ment{o.ci, o.oi})
 	case 8:
 		c := cases[0]
